@@ -26,11 +26,64 @@ type lifeImpl struct {
 	calls  int64
 	terms  int64
 	helper pong.PingPongSignalHelper
+	// an object whose activation waits for the harness: Add is then between its two critical sections
+	entered chan uint32
+	gate    chan struct{}
 }
 
 func (p *lifeImpl) Activate(a bus.Activation, h pong.PingPongSignalHelper) error {
 	p.helper = h
+	if p.gate != nil {
+		p.entered <- a.ObjectID
+		<-p.gate
+	}
 	return nil
+}
+
+type pendingAdd struct {
+	impl *lifeImpl
+	done chan error
+}
+
+// lifeAddBegin starts an Add and returns once the new object is being activated; its identifier is known by then
+func (w *lifeWorld) addBegin() (uint32, string) {
+	impl := &lifeImpl{entered: make(chan uint32, 1), gate: make(chan struct{})}
+	done := make(chan error, 1)
+	go func() { _, err := w.service.Add(pong.PingPongObject(impl)); done <- err }()
+	select {
+	case id := <-impl.entered:
+		if w.pend == nil {
+			w.pend = map[uint32]*pendingAdd{}
+		}
+		w.pend[id] = &pendingAdd{impl, done}
+		return id, "ok"
+	case <-done:
+		return 0, "err"
+	case <-time.After(3 * time.Second):
+		return 0, "timeout"
+	}
+}
+
+// addEnd lets the activation return and waits for Add
+func (w *lifeWorld) addEnd(id uint32) string {
+	p := w.pend[id]
+	if p == nil {
+		return "bad-state"
+	}
+	delete(w.pend, id)
+	close(p.impl.gate)
+	select {
+	case err := <-p.done:
+		if err != nil {
+			return "err"
+		}
+	case <-time.After(3 * time.Second):
+		return "timeout"
+	}
+	p.impl.uid = len(w.insts)
+	w.insts = append(w.insts, p.impl)
+	w.byID[id] = p.impl
+	return "added"
 }
 func (p *lifeImpl) OnTerminate()                   { atomic.AddInt64(&p.terms, 1) }
 func (p *lifeImpl) Hello(a string) (string, error) { atomic.AddInt64(&p.calls, 1); return "echo:" + a, nil }
@@ -51,6 +104,7 @@ type lifeWorld struct {
 	byID    map[uint32]*lifeImpl // current binding id -> instance
 	subs    []*lifeSub
 	idmap   map[uint32]uint32 // op-line id -> real id (identity except in replays)
+	pend    map[uint32]*pendingAdd
 	lastCl     bus.Client
 	lastAction uint32
 }
@@ -121,7 +175,7 @@ func execSvc(op string) func(a []string) string {
 		w := life
 		u32 := func(s string) uint32 {
 			v, _ := strconv.ParseUint(s, 10, 32)
-			if w != nil && op != "add" {
+			if w != nil && op != "add" && op != "addbegin" {
 				return w.real(uint32(v))
 			}
 			return uint32(v)
@@ -146,6 +200,15 @@ func execSvc(op string) func(a []string) string {
 			w.idmap[u32(a[0])] = id
 			lastAddedID = id
 			return "added"
+		case "addbegin":
+			id, res := w.addBegin()
+			if res == "ok" {
+				v, _ := strconv.ParseUint(a[0], 10, 32)
+				w.idmap[uint32(v)] = id
+			}
+			return res
+		case "addend":
+			return w.addEnd(u32(a[0]))
 		case "remove":
 			if err := w.service.Remove(u32(a[0])); err != nil {
 				return "err"
@@ -442,7 +505,7 @@ func init() {
 		}
 		return out.Result
 	}
-	for _, op := range []string{"reset", "add", "remove", "call", "term", "sub", "state"} {
+	for _, op := range []string{"reset", "add", "addbegin", "addend", "remove", "call", "term", "sub", "state"} {
 		executors["svc."+op] = execSvc(op)
 	}
 	executors["svc.race"] = execSvcRace
@@ -462,9 +525,51 @@ func runC16(r *Rand, tier string, o *Out) {
 		removed := []uint32{}
 		n := 8 + r.Intn(25)
 		var seq []string
-		for i := 0; i < n; i++ {
+		var pending []uint32 // identifiers whose Add is between its two critical sections
+		closeWindow := func(id uint32) {
+			res := o.Do("P", fmt.Sprintf("svc.addend %d", id), true)
+			seq = append(seq, fmt.Sprintf("addend(%d)=%s", id, res))
+			pending = removeU32(pending, id)
+			if res == "added" {
+				live = append(live, id)
+				removed = removeU32(removed, id)
+			}
+			o.Count("op:add-second-half")
+		}
+		for i := 0; i < n || len(pending) > 0; i++ {
 			pick := func(l []uint32) uint32 { return l[r.Intn(len(l))] }
 			k := r.Intn(100)
+			if i >= n || (len(pending) > 0 && r.Chance(25)) {
+				closeWindow(pending[r.Intn(len(pending))])
+				continue
+			}
+			if len(pending) < 2 && r.Chance(12) {
+				// the first half of an Add: the new object is being activated, the service goes on
+				id, res := life.addBegin()
+				if res != "ok" {
+					o.Op("P", "svc.addbegin 0", res, true)
+					continue
+				}
+				if containsU32(live, id) || containsU32(pending, id) {
+					o.Fail("Add handed out an identifier that a live object holds", strings.Join(seq, " ")+fmt.Sprintf(" addbegin=>%d", id))
+				}
+				pending = append(pending, id)
+				o.Op("P", fmt.Sprintf("svc.addbegin %d", id), "ok", true)
+				seq = append(seq, fmt.Sprintf("addbegin(%d)", id))
+				o.Count("op:add-first-half")
+				continue
+			}
+			if len(pending) > 0 && r.Chance(15) {
+				// something addressed to the identifier that is being added
+				id := pick(pending)
+				// (not its removal: the identifier has not been returned to anybody who could ask for it)
+				sub++
+				line := []string{fmt.Sprintf("svc.call %d", id), fmt.Sprintf("svc.term %d %d", id, id), fmt.Sprintf("svc.sub %d %d", id, sub)}[r.Intn(3)]
+				res := o.Do("P", line, true)
+				seq = append(seq, strings.TrimPrefix(line, "svc.")+"="+res)
+				o.Count("op:addressed-to-a-pending-identifier")
+				continue
+			}
 			var line string
 			switch {
 			case k < 18:
@@ -552,6 +657,11 @@ func runC16(r *Rand, tier string, o *Out) {
 				o.Count("op:subscribe-removed")
 			default:
 				continue
+			}
+			if f := strings.Fields(line); f[0] == "svc.remove" {
+				if id64, _ := strconv.ParseUint(f[1], 10, 32); containsU32(pending, uint32(id64)) {
+					continue // the removal of an identifier that Add has not returned yet is nobody's to ask for
+				}
 			}
 			res := o.Do("P", line, true)
 			seq = append(seq, strings.TrimPrefix(line, "svc.")+"="+res)
